@@ -101,13 +101,13 @@ func (fv *FV) havocAll(e *Env) {
 	// contract itself; code outside the module and interface-dispatched callees
 	// cannot make such calls, so the counters survive their havoc.
 	keep := map[string]Term{}
-	if fv.keepCounters != nil {
-		for _, b := range fv.eng.bumpRe {
-			if fv.keepCounters[bumpAll] || fv.keepCounters[b.name] {
-				continue
-			}
-			comp := "G$" + sanitize(b.name)
+	mono := map[string]Term{} // counters that may have been bumped: they only grow
+	for _, b := range fv.eng.bumpRe {
+		comp := "G$" + sanitize(b.name)
+		if fv.keepCounters != nil && !fv.keepCounters[bumpAll] && !fv.keepCounters[b.name] {
 			keep[comp] = fv.heapGet(e, comp, arrSort(sRef, sInt))
+		} else if _, used := fv.compSort[comp]; used {
+			mono[comp] = fv.heapGet(e, comp, arrSort(sRef, sInt))
 		}
 	}
 	fv.nextEpoch++
@@ -115,6 +115,12 @@ func (fv *FV) havocAll(e *Env) {
 	e.heap = map[string]Term{}
 	for c, t := range keep {
 		fv.heapSet(e, c, t)
+	}
+	for _, c := range sortedKeys(mono) {
+		old := mono[c]
+		n := fv.s.freshConst(c, arrSort(sRef, sInt))
+		fv.s.assume(implies(e.pc, le(sel(old, tNull), sel(n, tNull))))
+		fv.heapSet(e, c, n)
 	}
 	fv.havocAlloc(e)
 }
